@@ -21,6 +21,7 @@ import GoSquare.Properties.C18
 import GoSquare.Properties.C19
 import GoSquare.Properties.C20
 import GoSquare.Proofs.DecLocal
+import GoSquare.Proofs.HeapRefine
 #print axioms GoSquare.C01.build_then_construct
 #print axioms GoSquare.C01.kept_export_eq
 #print axioms GoSquare.C01.replay_normals
@@ -207,6 +208,10 @@ import GoSquare.Proofs.DecLocal
 #print axioms GoSquare.C17.goAppend_frame
 #print axioms GoSquare.C17.accumulate_frame
 #print axioms GoSquare.C17.accumulate_from_nil_preserves_memory
+#print axioms GoSquare.HeapRefine.accumulate_from_nil_result
+#print axioms GoSquare.HeapRefine.accumulate_from_nil_refines
+#print axioms GoSquare.HeapRefine.accumulate_from_nil_views_unchanged
+#print axioms GoSquare.HeapRefine.goAppend_result
 #print axioms GoSquare.C18.compare_spec
 #print axioms GoSquare.C18.compare_total_order
 #print axioms GoSquare.C18.predicates_spec
